@@ -272,6 +272,20 @@ def check_case(case):
           gin.bind_parameter((scope, sel_full, param), new_value)
         model[(scope, param)] = new_value
         labels.add('rebind-between-calls')
+      if call.get('reenter') is not None:
+        # a scope list that is active somewhere down the stack (an explicit list, a captured
+        # scope) is entered once more on top and left again: the stack below is as it was
+        live = [e for e in case['entries'] + ([captured] if captured is not None else [])
+                if isinstance(e, list)]
+        if live:
+          obj = live[call['reenter'] % len(live)]
+          with gin.config_scope(obj):
+            require(gin.current_scope() == list(obj), 'active-scope',
+                    lambda: f're-entered {obj}: current_scope()={gin.current_scope()}')
+          require(gin.current_scope() == stack.current, 'active-scope',
+                  lambda: f'after re-entering and leaving the active list {obj}: '
+                          f'current_scope()={gin.current_scope()} model={stack.current}')
+          labels.add('reenter-active-scope-list-and-leave')
       extra_entry = call.get('enter')
       ctx = gin.config_scope(extra_entry) if extra_entry is not None else contextlib.nullcontext()
       with ctx:
@@ -468,6 +482,8 @@ def strategy(draw):
                      for k in draw(st.lists(st.sampled_from(keys), unique=True, min_size=1, max_size=3))}
     if shape['kind'] == 'function' and draw(st.integers(0, 4)) == 0:
       call['via'] = draw(st.sampled_from(['s', 't', 's/t', 'u/s', 'zz']))
+    if draw(st.integers(0, 4)) == 0:
+      call['reenter'] = draw(st.integers(0, 3))
     if j > 0 and draw(st.integers(0, 2)) == 0:
       call['rebind'] = [draw(st.integers(0, 11)), j, draw(st.booleans())]
     calls.append(call)
